@@ -6,6 +6,7 @@ import (
 	"bytes"
 	"encoding/json"
 	"fmt"
+	"io"
 	mrand "math/rand"
 	"regexp"
 	"runtime/debug"
@@ -24,9 +25,10 @@ func init() { register("C02", "exploration", runC02) }
 // c02Case: which hostile string goes to which setter.
 type c02Case struct {
 	Enc     string            `json:"enc"`
-	Shape   string            `json:"shape"`   // single | alt | mixed | related | filesonly
-	Values  map[string]string `json:"values"`  // setter -> value
-	Classes map[string]string `json:"classes"` // setter -> hostile class
+	Shape   string            `json:"shape"`                   // single | alt | mixed | related | filesonly
+	Values  map[string]string `json:"values"`                  // setter -> value
+	Classes map[string]string `json:"classes"`                 // setter -> hostile class
+	Prior   int               `json:"prior_renders,omitempty"` // the message has been rendered that often before the judged render
 }
 
 var c02Setters = []string{
@@ -347,6 +349,9 @@ func runC02Case(r *ev.Run, c c02Case) {
 		if err != nil {
 			return
 		}
+		for k := 0; k < c.Prior; k++ {
+			_, _ = m.WriteTo(io.Discard)
+		}
 		_, err = m.WriteTo(&out)
 	}()
 	if err != nil {
@@ -622,6 +627,9 @@ func runC02(r *ev.Run, rep *ev.ReplayDoc) ev.Summary {
 			}
 			c.Values[st] = hostile(rng, cl, 1000000+i*10+j)
 			c.Classes[st] = cl
+		}
+		if i%4 == 3 {
+			c.Prior = 1 + i%2
 		}
 		cases = append(cases, c)
 	}
